@@ -17,6 +17,7 @@ RULE = ("task lists: EVERY list of <=L tasks over 8 concrete tasks of the three 
         "sampler's internal threshold, and EVERY shot count 1..130 on two basis states with bit-exact comparison; exact values: circuits x operators incl. X/Y terms and constants, tasks with shot numbers None/0/5 vs psi^dagger M psi; binding: every list of <=3 tasks "
         "(two sharing ONE circuit object, zero-shot and constant-operator tasks with parametrised circuits) x per-task maps. non-trivial = list mixing at least two task kinds / non-palindromic basis state")
 RULE += ' Also: unsimplified operators repeating a support with different coefficients; a second estimation after the caller shifted the first results in place; symbols with assumptions in symbol maps.'
+RULE += ' Round 5: bare multi-qubit PauliTerm operators of measured tasks; a second exact evaluation after the operators were rescaled in place; basis states of 9-10 qubits with terms coupling qubits 8+ to lower ones.'
 ASSUMPTIONS = ["sampling randomness scripted with default answers (basis states have a single outcome with p>1e-12)", "the runner records what it is asked to run through an overriding subclass that only logs and delegates"]
 BOUNDS = {"quick": {"list_len": 4}, "thorough": {"list_len": 5}}
 
